@@ -125,27 +125,27 @@ def k6Classes : Classes :=
    ("K1".toList, { cid := "K1".toList, slug := "p2".toList, params := [], inputs := [{ ref := .byClass "K0".toList }] })]
 def k6FS : FS :=
   [("p".toList, .single { data := [], tasks := ["K0".toList, "K1".toList], excluded := [], uses := [] }),
-   ("c1".toList, .single { data := [], tasks := [], excluded := [], uses := ["p as a".toList] }),
-   ("c2".toList, .single { data := [], tasks := [], excluded := [], uses := ["p as b".toList] })]
+   ("c1.json".toList, .single { data := [], tasks := [], excluded := [], uses := ["p as a".toList] }),
+   ("c2.json".toList, .single { data := [], tasks := [], excluded := [], uses := ["p as b".toList] })]
 
 /-- every member config builds standalone … -/
 theorem k6_standalone_ok :
-    (build id (fun _ => true) k6FS [] k6Classes "c1".toList none none [] 0 8).toOption.isSome = true ∧
-    (build id (fun _ => true) k6FS [] k6Classes "c2".toList none none [] 0 8).toOption.isSome = true := by
+    (build id (fun _ => true) k6FS [] k6Classes "c1.json".toList none none [] 0 8).toOption.isSome = true ∧
+    (build id (fun _ => true) k6FS [] k6Classes "c2.json".toList none none [] 0 8).toOption.isSome = true := by
   constructor <;> rfl
 
 /-- … but the MultiChain of the two does not (finding K6) -/
 theorem k6_multichain_fails :
-    buildMulti id (fun _ => true) k6FS [] k6Classes [("c1".toList, none), ("c2".toList, none)] 8 = .error .missingInput := by
+    buildMulti id (fun _ => true) k6FS [] k6Classes [("c1.json".toList, none), ("c2.json".toList, none)] 8 = .error .missingInput := by
   rfl
 
 /-- with the same namespace in both configs the MultiChain builds and shares both objects -/
 example :
     (buildMulti id (fun _ => true)
       [("p".toList, .single { data := [], tasks := ["K0".toList, "K1".toList], excluded := [], uses := [] }),
-       ("c1".toList, .single { data := [], tasks := [], excluded := [], uses := ["p as a".toList] }),
-       ("c2".toList, .single { data := [], tasks := [], excluded := [], uses := ["p as a".toList] })]
-      [] k6Classes [("c1".toList, none), ("c2".toList, none)] 8).toOption.map
+       ("c1.json".toList, .single { data := [], tasks := [], excluded := [], uses := ["p as a".toList] }),
+       ("c2.json".toList, .single { data := [], tasks := [], excluded := [], uses := ["p as a".toList] })]
+      [] k6Classes [("c1.json".toList, none), ("c2.json".toList, none)] 8).toOption.map
         (fun cs => cs.map (fun c => c.tasks.map (·.objId))) = some [[0, 1], [0, 1]] := by
   rfl
 
